@@ -171,4 +171,29 @@ theorem step_frame {F : Facts} (hF : F = Facts.guarded) {u : Nat} {s s' : State}
         · cases h; exact g.frame
         · rename_i hnext; exact absurd hnext g.notrap
 
+/-- any number of steps of threads other than `t` leave a list whose mutex `t`
+    holds with `t`, buffer unchanged -/
+theorem run_frame {F : Facts} (hF : F = Facts.guarded) (t l : Nat) :
+    ∀ (others : List Nat) (s s' : State), Inv s → (∀ u ∈ others, u ≠ t) →
+      (s.cells l).owner = some t → run F s others = some s' →
+      (s'.cells l).owner = some t ∧ (s'.cells l).raw = (s.cells l).raw := by
+  intro others
+  induction others with
+  | nil =>
+    intro s s' _ _ hown h
+    simp only [run, Option.some.injEq] at h
+    subst h
+    exact ⟨hown, rfl⟩
+  | cons u rest ih =>
+    intro s s' hinv hoth hown h
+    simp only [run] at h
+    split at h
+    · cases h
+    · rename_i s1 hs
+      have hu : u ≠ t := hoth u (List.mem_cons_self ..)
+      have f := step_frame hF hinv hs l t (Ne.symm hu) hown
+      have hinv1 := (step_facts hF hinv hs).inv
+      have := ih s1 s' hinv1 (fun v hv => hoth v (List.mem_cons_of_mem _ hv)) f.1 h
+      exact ⟨this.1, this.2.trans f.2⟩
+
 end RotoV.ListConc
